@@ -3,6 +3,7 @@ import Demeter.Trigger
 import Demeter.Actuator
 import Demeter.Actuator.Causal
 import Demeter.Actuator.Hooks
+import Demeter.Actuator.Finalize
 namespace Demeter.Drv
 open Demeter Demeter.Core Lean
 
@@ -277,6 +278,39 @@ def resultJ (made : List Json) (cfg : Cfg) (r : RunResult) : Json :=
     ("bars", .arr ((barIndex cfg).map iJ).toArray),
     ("err", errJ r.err)]
 
+/-- an outcome of an operation issued by `finalize()` itself: the hook is printed as "finalize" (see `FinTail.own`) -/
+def evJFin : Ev → Json
+  | .opOk ts _ m tag => .arr #["ok", iJ ts, "finalize", nJ m, .str tag]
+  | .opRej ts _ m tag c => .arr #["rej", iJ ts, "finalize", nJ m, .str tag, .bool c]
+  | .opFree ts _ m tag ok => .arr #["free", iJ ts, "finalize", nJ m, .str tag, .bool ok]
+  | e => evJ e
+
+/-- `"fin": [ops]`, `"fin_notify": [[tag, ops], …]`, `"fin_fuel"` of a script: what `finalize()` does (`FinScript`) -/
+def parseFin (scj : Json) : Except String (Option FinScript) := do
+  match jOpt scj "fin" with
+  | none => pure none
+  | some v =>
+    let ops ← opsOf v
+    let l ← match jOpt scj "fin_notify" with
+      | some (.arr a) => a.toList.mapM fun v => match v with
+        | .arr #[.str tag, o] => do pure (tag, ← opsOf o)
+        | _ => throw "fin_notify: expected [tag, ops]"
+      | _ => pure []
+    let fuel ← match jOpt scj "fin_fuel" with | some v => natOf v | none => pure 0
+    pure (some { ops := ops, notify := fun t => (l.lookup t).getD [], fuel := fuel })
+
+/-- the answer for a run with what follows `finalize()`: trace = loop ++ tail, `actions` = `Actuator.actions` after the run, `undelivered` =
+    what is left in `_currents.actions` -/
+def fullJ (made : List Json) (cfg : Cfg) (r : FullRun) : Json :=
+  let base := resultJ made cfg r.loop
+  match r.tail with
+  | none => base
+  | some t =>
+    ((base.setObjVal! "trace" (.arr ((r.loop.trace.map evJ) ++ (t.own.map evJFin) ++ (t.deliveries.map evJ)).toArray)).setObjVal!
+      "actions" (.arr (r.actions.map fun a => Json.arr #[.str a.tag, iJ a.stamp, nJ a.m]).toArray)).setObjVal!
+      "undelivered" (.arr (r.undelivered.map fun a => Json.arr #[.str a.tag, iJ a.stamp, nJ a.m]).toArray)
+      |>.setObjVal! "err" (if t.ended then errJ r.loop.err else .str "diverges")
+
 /-- `Actuator.run` for any scripted strategy (`runG`); with `"then": <script>` the same Actuator and strategy object are run a second time
     with that script (`trigsAfterRunG` → `actuatorRunG`) and the second result is answered under `"second"` -/
 def runGH : JHandler := fun j => do
@@ -286,14 +320,19 @@ def runGH : JHandler := fun j => do
   let (made, ok) := buildTrigs specs
   let trigs := install (ok.map fun (kw, _, k) => (kw, k))
   let g ← parseGScript ((jOpt j "script").getD (Json.mkObj []))
-  let r := actuatorRunG cfg trigs g
-  let first := resultJ made cfg r
+  let fin ← parseFin ((jOpt j "script").getD (Json.mkObj []))
+  let first := match fin with
+    | none => resultJ made cfg (actuatorRunG cfg trigs g)
+    | some f => fullJ made cfg (actuatorRunFull cfg trigs g f)
   match jOpt j "then" with
   | none => pure first
   | some scj2 =>
     let g2 ← parseGScript scj2
-    let r2 := actuatorRunG cfg (trigsAfterRunG cfg trigs g) g2
-    pure (first.setObjVal! "second" (resultJ made cfg r2))
+    let fin2 ← parseFin scj2
+    let second := match fin2 with
+      | none => resultJ made cfg (actuatorRunG cfg (trigsAfterRunG cfg trigs g) g2)
+      | some f => fullJ made cfg (actuatorRunFull cfg (trigsAfterRunG cfg trigs g) g2 f)
+    pure (first.setObjVal! "second" second)
 
 /-- the trigger loop alone with actions that change the list (`trigRunD`), and the same bars through the cursor reading (`cursorLoop`) -/
 def trigRunDynH : JHandler := fun j => do
